@@ -14,6 +14,12 @@ package ipoe
 //	S<t>   DHCPv6 SOLICIT                                (ipoe session-creation path handleDHCPv6Solicit, dhcpv6.go)
 //	P<t>   PPPoE PADI + PADR from tuple t                (pppoe session-creation path, handlePADR)
 //
+// Case "ae2e <op>...": the same with the terminate events HELD by the bus wrapper until released:
+//
+//	V      the bus delivers the oldest held terminate event (to both components)
+//	X<t>   PADT for the tuple's current PPPoE session
+//	O<t>   a terminate request naming the tuple's IPoE session is published (held like every terminate event)
+//
 // After every op the system is left to settle (sentinel events through the bus until neither the
 // number of published events nor the snapshot changes any more) and one token is printed with the
 // state of ALL four tuples, the op's own tuple first:
@@ -51,6 +57,39 @@ import (
 	"github.com/veesix-networks/osvbng/pkg/session"
 )
 
+// c17HoldBus is what both components get as their event bus.  It passes everything to the real local bus,
+// except that SubscriberTerminate events can be HELD in publication order and released one at a time (V op): the
+// real bus is asynchronous, this makes the interleaving of creations, teardowns and deliveries a test input.
+type c17HoldBus struct {
+	events.Bus
+	mu   sync.Mutex
+	hold bool
+	q    []events.Event
+}
+
+func (b *c17HoldBus) Publish(topic string, ev events.Event) {
+	b.mu.Lock()
+	if b.hold && topic == events.TopicSubscriberTerminate {
+		b.q = append(b.q, ev)
+		b.mu.Unlock()
+		return
+	}
+	b.mu.Unlock()
+	b.Bus.Publish(topic, ev)
+}
+
+func (b *c17HoldBus) releaseOne() {
+	b.mu.Lock()
+	if len(b.q) == 0 {
+		b.mu.Unlock()
+		return
+	}
+	ev := b.q[0]
+	b.q = b.q[1:]
+	b.mu.Unlock()
+	b.Bus.Publish(events.TopicSubscriberTerminate, ev)
+}
+
 type c17Mixed struct{}
 
 func (c17Mixed) IsMixedAccessSVLAN(svlan uint16) bool { return svlan == 100 }
@@ -72,6 +111,8 @@ var c17Tuples = []c17Tuple{
 type c17World struct {
 	mu       sync.Mutex
 	bus      events.Bus
+	hb       *c17HoldBus
+	cur      map[string]uint16 // tuple -> PPPoE session id of the last PADS
 	reg      *session.Registry
 	ic       *Component
 	pc       *pppoe.Component
@@ -94,7 +135,7 @@ func (w *c17World) tupleOf(mac string, svlan, cvlan uint16) string {
 	return "?"
 }
 
-func c17NewWorld() *c17World {
+func c17NewWorld(hold bool) *c17World {
 	ifMgr := ifmgr.New()
 	ifMgr.Add(&ifmgr.Interface{SwIfIndex: 10, SupSwIfIndex: 2, Name: "TenGigE0/0.100", Type: ifmgr.IfTypeSub, OuterVlanID: 100})
 	ifMgr.Add(&ifmgr.Interface{SwIfIndex: 2, Name: "TenGigE0/0", Type: ifmgr.IfTypeHardware, MAC: []byte{0x52, 0x54, 0x00, 0x11, 0x22, 0x33}})
@@ -107,7 +148,8 @@ func c17NewWorld() *c17World {
 		AAA: aaacfg.AAAConfig{Policy: []aaacfg.AAAPolicy{{Name: "p1", Type: aaacfg.PolicyTypeDHCP, Format: "$mac-address$"}}},
 	}
 	w := &c17World{bus: local.NewBus(), reg: session.NewRegistry(), pppCh: make(chan *dataplane.ParsedPacket, 64),
-		cookies: map[string][]byte{}, created: map[string]map[uint16]bool{}, released: map[uint16]bool{}}
+		cookies: map[string][]byte{}, created: map[string]map[uint16]bool{}, released: map[uint16]bool{}, cur: map[string]uint16{}}
+	w.hb = &c17HoldBus{Bus: w.bus, hold: hold}
 	cm := &fakeConfigManager{cfg: cfg}
 	srg := &fakeSRGProvider{active: true, srgForGrp: "grp"}
 	// observers on the bus: PADO cookies, PADS (= PPPoE session created), lifecycle released
@@ -143,6 +185,7 @@ func c17NewWorld() *c17World {
 					w.created[tn] = map[uint16]bool{}
 				}
 				w.created[tn][sid] = true
+				w.cur[tn] = sid
 			}
 		case *events.SessionLifecycleEvent:
 			if ps, ok := d.Session.(*models.PPPSession); ok && d.State == models.SessionStateReleased {
@@ -152,7 +195,7 @@ func c17NewWorld() *c17World {
 	})
 	// the ipoe component, wired as Component.Start wires it (component.go: Subscribe terminate)
 	w.ic = &Component{
-		Base: component.NewBase("ipoe"), logger: logger.NewTest(), eventBus: w.bus, srgMgr: srg, ifMgr: ifMgr, cfgMgr: cm,
+		Base: component.NewBase("ipoe"), logger: logger.NewTest(), eventBus: w.hb, srgMgr: srg, ifMgr: ifMgr, cfgMgr: cm,
 		exclusivity: w.reg, accessResolver: c17Mixed{},
 	}
 	w.ic.SetReadyState(component.StateReady)
@@ -166,7 +209,7 @@ func c17NewWorld() *c17World {
 		w.mu.Unlock()
 	})
 	// the pppoe component through its exported constructor and Start
-	pc, err := pppoe.New(component.Dependencies{EventBus: w.bus, ConfigManager: cm, Exclusivity: w.reg,
+	pc, err := pppoe.New(component.Dependencies{EventBus: w.hb, ConfigManager: cm, Exclusivity: w.reg,
 		AccessResolver: c17Mixed{}, PPPChan: w.pppCh}, srg, ifMgr, nil)
 	if err != nil {
 		panic(err)
@@ -299,6 +342,43 @@ func (w *c17World) solicit(t c17Tuple) {
 		DHCPv6: &layers.DHCPv6{}}, msg, nil)
 }
 
+// PADT from the host for the tuple's current PPPoE session (handlePADT -> removeFromIndexes -> Release)
+func (w *c17World) padt(t c17Tuple) {
+	w.mu.Lock()
+	sid, ok := w.cur[t.name]
+	delete(w.cur, t.name)
+	w.mu.Unlock()
+	if !ok {
+		return
+	}
+	w.pppCh <- &dataplane.ParsedPacket{Protocol: models.ProtocolPPPoEDiscovery, MAC: t.mac, OuterVLAN: t.svl, InnerVLAN: t.cvl, SwIfIndex: 10,
+		PPPoE: &layers.PPPoE{Version: 1, Type: 1, Code: layers.PPPoECodePADT, SessionId: sid}}
+	for i := 0; i < 2000; i++ {
+		time.Sleep(time.Millisecond)
+		w.mu.Lock()
+		gone := w.released[sid]
+		w.mu.Unlock()
+		if gone {
+			return
+		}
+	}
+}
+
+// a terminate request naming the tuple's IPoE session (operator clear, lease expiry, ...) is published
+func (w *c17World) operTerminate(t c17Tuple) {
+	var sid string
+	w.ic.sessionIndex.Range(func(_, v any) bool {
+		s := v.(*SessionState)
+		if s.MAC.String() == t.mac.String() && s.OuterVLAN == t.svl && s.InnerVLAN == t.cvl {
+			sid = s.SessionID
+		}
+		return true
+	})
+	if sid != "" {
+		w.hb.Publish(events.TopicSubscriberTerminate, events.Event{Source: "operator", Data: &events.SubscriberTerminateEvent{SessionID: sid, Reason: "cleared"}})
+	}
+}
+
 func (w *c17World) pppoeConnect(t c17Tuple) {
 	mk := func(code layers.PPPoECode, payload []byte) *dataplane.ParsedPacket {
 		return &dataplane.ParsedPacket{Protocol: models.ProtocolPPPoEDiscovery, MAC: t.mac, OuterVLAN: t.svl, InnerVLAN: t.cvl, SwIfIndex: 10,
@@ -341,11 +421,14 @@ func c17E2E(f []string) (out string) {
 			out = "panic " + strings.ReplaceAll(fmt.Sprint(e), " ", "_")
 		}
 	}()
-	w := c17NewWorld()
+	w := c17NewWorld(f[0] == "ae2e")
 	defer w.close()
 	var res []string
 	for _, op := range f[1:] {
-		t := c17Tuples[int(op[1]-'0')]
+		t := c17Tuples[0]
+		if len(op) > 1 {
+			t = c17Tuples[int(op[1]-'0')]
+		}
 		switch op[0] {
 		case 'D':
 			w.discover(t)
@@ -353,6 +436,12 @@ func c17E2E(f []string) (out string) {
 			w.request(t)
 		case 'S':
 			w.solicit(t)
+		case 'V':
+			w.hb.releaseOne()
+		case 'X':
+			w.padt(t)
+		case 'O':
+			w.operTerminate(t)
 		case 'P':
 			w.pppoeConnect(t)
 		default:
